@@ -165,6 +165,8 @@ func (w *World) verifyFunc(fi *FuncInfo, props []string) (res *FuncResult) {
 		fx.finishInputs()
 		return res
 	}
+	vx := c.oblige(exit, "vacuity", "exit", "true", "some execution reaches the end of the function", w.pos(fi.Body.Rbrace))
+	vx.Vacuity = true
 	// locks taken by this activation are released on every exit
 	for _, mu := range c.locks {
 		phi := fmt.Sprintf("(= (select %s %s) (select %s %s))", exit.heap("LK", "(Array Int Int)"), mu, fx.entry.heap("LK", "(Array Int Int)"), mu)
